@@ -90,9 +90,30 @@ def run_static(res, pid, gd, lp):
 
 def run(res):
     from .. import l1
-    core.std_proof_coverage(res, "C12", extra_obligations=len(OBLIGATIONS))
+    core.std_proof_coverage(res, "C12", extra_obligations=len(OBLIGATIONS) + 1)
     gd, lp = core.gen_lockprog("C12")
     found, obl = run_static(res, "C12", gd, lp)
+    # nothing stays locked for ever: no cycle in the order in which mutex classes are nested (Model/LockOrder.v on the go2race skeleton)
+    from .c11 import gen_raceprog, IMPORTS as RC_IMPORTS, OBLIGATIONS as RC_OBL, ORDER_REPORT
+    import os as _os
+    gd2, _rp = gen_raceprog("C12")
+    lo = core.check_gen_obligations("C12_order", gd2, RC_IMPORTS, [(n.replace("C11_", "C12_"), st, pr) for n, st, pr in RC_OBL if n == "C11_gen_lock_order"], timeout=900)
+    for n, ok, e in lo:
+        res.coverage["theorems"].append(n)
+        res.coverage["generated_obligations"][n] = ok
+        if ok:
+            res.coverage["discharged"] += 1
+        else:
+            p = _os.path.join(core.WORK, "C12", "report_order.v")
+            open(p, "w").write(ORDER_REPORT)
+            rc, out, err, dt = core.coqc_file(p, extra=["-Q", gd2, "MVgen"], timeout=900)
+            txt = re.sub(r"\s+", " ", out)
+            m = re.search(r"cyc = \[(.*?)\]", txt)
+            cyc = re.findall(r'"([^"]+)"', m.group(1)) if m else []
+            res.violation("static:lock-order:" + "+".join(sorted(cyc))[:200],
+                          "lock-order cycle: the mutex classes %s are acquired in both orders (nested acquisitions, directly or through calls); two goroutines taking them in opposite "
+                          "orders block each other -- and every later call on these objects -- for ever" % ", ".join(cyc),
+                          {"classes_on_a_cycle": cyc, "theorem": n + " (order_ok = true); Props/C11.v C11_lock_order_no_cycle", "coqc": e[-300:]}, found_input=False)
     # dynamic part: error outcomes followed by further calls on the same objects, against the real core over the
     # virtual transport; the watchdog (quiescence detector) reports goroutines parked on a mutex
     cov = dict(res.coverage)
